@@ -316,6 +316,29 @@ func (w *vWorld) present(consumer, art string) (bool, vResp) {
 	case "cookiegate":
 		r := w.Do(vReq{Method: "GET", Path: "/profile/", Cookies: map[string]string{authCookieName: art}})
 		return r.Status == 200, r
+	case "cookieupgrade":
+		// the second-factor re-signing path as a consumer of session cookies: the request is authenticated by alice's
+		// client certificate, her bootstrap OTP is right, and the artefact rides along as the session cookie to be raised
+		w.armBootstrapOTP("alice", "otp-c04", time.Hour)
+		leaf := vMakeCert(vCertOpts{CN: "alice", Parent: w.caCert(), ParentKey: vCAKey})
+		r := w.Do(vReq{Method: "POST", Path: bootstrapOtpAuthPath, Chains: w.verifiedChains(leaf), Cookies: map[string]string{authCookieName: art},
+			Headers: map[string]string{"Accept": "application/json"}, Form: url.Values{"OTP": {"otp-c04"}}})
+		// honoured = a session comes back that this server accepts (a re-signed copy that is as expired as the
+		// original is worth nothing)
+		ck := r.Cookie(authCookieName)
+		if r.Status != 200 || ck == nil || ck.Value == "" {
+			return false, r
+		}
+		// ... signed by this server and not expired: whatever else it says (issuer, audience), this server vouched for it
+		tok, err := jwt.ParseSigned(ck.Value, vAllAlgs)
+		if err != nil {
+			return false, r
+		}
+		var cl vClaims
+		if tok.Claims(&vCAKey.PublicKey, &cl) != nil {
+			return false, r
+		}
+		return cl.Expiration > time.Now().Unix(), r
 	case "cliverify":
 		r := w.Do(vReq{Method: "GET", Path: "/verifyAuthToken", Form: url.Values{"token": {art}}})
 		return r.Status == 200, r
@@ -373,8 +396,8 @@ func runC04(t *testing.T, cases []map[string]interface{}, ev *vEvents) {
 	oc3, _ := w.authorizeAud("bob", vClientA, "none", "https://api.example.org")
 	_, otr3 := w.redeem(oc3, vClientA, vSecretA, "", vRedirect, "header")
 	other["access_aud"] = otr3.AccessToken
-	consumers := []string{"cookiegate", "cliverify", "clisend", "storage", "tokenendpoint", "userinfo"}
-	consumes := map[string]string{"cookiegate": "cookie", "cliverify": "cli", "clisend": "cli", "storage": "storage",
+	consumers := []string{"cookiegate", "cookieupgrade", "cliverify", "clisend", "storage", "tokenendpoint", "userinfo"}
+	consumes := map[string]string{"cookiegate": "cookie", "cookieupgrade": "cookie", "cliverify": "cli", "clisend": "cli", "storage": "storage",
 		"tokenendpoint": "code", "userinfo": "access"}
 	// vacuity control: a faithful re-signature of the genuine claims must be honoured, otherwise the
 	// refusals below would be artefacts of the harness' own re-encoding
@@ -413,6 +436,11 @@ func runC04(t *testing.T, cases []map[string]interface{}, ev *vEvents) {
 		side := before != after
 		if ck := r.Cookie(authCookieName); ck != nil && ck.Value != "" {
 			side = true
+		}
+		if consumer == "cookieupgrade" && !honoured {
+			// the request was admitted by its client certificate and the one-time password was the user's own: that it is
+			// spent is the doing of those two, not of the cookie under test
+			side = false
 		}
 		ev.Emit(map[string]interface{}{"i": i, "ev": "Present", "case": c,
 			"out": map[string]interface{}{"honoured": honoured, "sideeffect": side, "panic": r.Panic != "", "status": r.Status}})
